@@ -182,17 +182,22 @@ def main():
         rc, log, _ = run_proc(binp, pkgdir, ["-test.run", "^TestReplay$", "-test.count=1", "-rapid.nofailfile", "-test.timeout=600s"], env, od, 700)
         return f, rc, log
 
-    if reg_files:
-        with ThreadPoolExecutor(max_workers=NCPU) as ex:
-            for f, rc, log in ex.map(run_reg, list(enumerate(reg_files))):
-                reg_run += 1
-                txt = open(log).read()
-                if rc != 0 or "--- FAIL" in txt:
-                    m = re.search(r"VIOLATION-CANDIDATE \S+ sig=(\S+): (.*)", txt)
-                    sig = m.group(1).rstrip(":") if m else stack_sig(txt)
-                    if any(sig == k for k, _ in known_findings(pid)):
-                        continue
-                    violations.append((sig, f, (m.group(2) if m else txt[-300:])))
+    reg_pool = ThreadPoolExecutor(max_workers=NCPU)
+    reg_futures = [reg_pool.submit(run_reg, x) for x in enumerate(reg_files)]  # run alongside the parts
+
+    def collect_reg():
+        nonlocal reg_run
+        for fut in reg_futures:
+            f, rc, log = fut.result()
+            reg_run += 1
+            txt = open(log, errors="replace").read()
+            if rc != 0 or "--- FAIL" in txt:
+                m = re.search(r"VIOLATION-CANDIDATE \S+ sig=(\S+): (.*)", txt)
+                sig = m.group(1).rstrip(":") if m else stack_sig(txt)
+                if any(sig == k for k, _ in known_findings(pid)):
+                    continue
+                violations.append((sig, f, (m.group(2) if m else txt[-300:])))
+        reg_pool.shutdown()
 
     # 2. parts
     jobs = []
@@ -224,6 +229,7 @@ def main():
     with ThreadPoolExecutor(max_workers=NCPU) as ex:
         for res in ex.map(run_job, jobs):
             results.append(res)
+    collect_reg()
 
     for (part, s, args, env, od), rc, log, wall in results:
         txt = open(log, errors="replace").read()
@@ -239,6 +245,10 @@ def main():
             continue
         if rc == -999:
             inconclusive.append("%s shard %d: time budget exhausted" % (part["test"], s))
+            continue
+        # go test's own deadline is a budget, not a verdict
+        if "panic: test timed out" in txt:
+            inconclusive.append("%s shard %d: go test deadline reached" % (part["test"], s))
             continue
         # process died without a recorded failure
         if re.search(r"^(panic:|fatal error:)", txt, re.M) and not part.get("death_is_inconclusive"):
